@@ -469,6 +469,22 @@ class BorderExec(Exec):
         self.flags.add("write_after_border")
         self.check_view(self.table, "write")
 
+    def op_grow(self, how, n):
+        """The table grows by rows/columns at its end (add_row, add_column, or a write past the last cell): the new cells share
+        edges with the old last row/column and must report the strokes drawn along them."""
+        if how == "add_row":
+            self.table.add_row(n)
+            self.rows += n
+        elif how == "add_column":
+            self.table.add_column(n)
+            self.cols += n
+        else:
+            self.table.write(self.rows + n - 1, self.cols + n - 1, "g")
+            self.rows += n
+            self.cols += n
+        self.flags.add("grown_after_strokes")
+        self.check_view(self.table, "grow")
+
     def op_reopen(self, switch):
         path = self.tmpdir() / f"b{self.nsaves}.numbers"
         self.nsaves += 1
@@ -598,6 +614,13 @@ def make_border_machine(ctx, with_merges):
             if self.dead or self.ex.nsaves >= 3:
                 return
             self.step("reopen", switch=switch)
+
+        @rule(data=st.data(), how=st.sampled_from(["add_row", "add_column", "write_beyond"]), n=st.integers(1, 2))
+        def grow(self, data, how, n):
+            self.ensure(data)
+            if self.dead or self.ex.rows + n > 11 or self.ex.cols + n > 11 or not any(op["op"] == "stroke" for op in self.ex.log):
+                return
+            self.step("grow", how=how, n=n)
 
         @rule(data=st.data(), shape=st.sampled_from(["other_side", "partial_overlap"]), looks=st.lists(st.tuples(
             st.sampled_from([0.25, 0.5, 1.0, 2.0, 3.25]), rgbs, st.sampled_from(["solid", "dashes", "dots"])), min_size=3, max_size=3, unique_by=lambda t: t[0]))
